@@ -32,6 +32,7 @@ type FuncContract struct {
 	Inline       bool // always inline at call sites, contract (if any) ignored by callers
 	NoReturn     bool
 	NoPanicProps []string
+	NoFrame      bool
 	Where        string
 	Bounded      string
 }
@@ -92,7 +93,7 @@ var labelRe = regexp.MustCompile(`^([a-zA-Z_][a-zA-Z0-9_.\-]*):\s+`)
 
 var clauseKeywords = map[string]bool{"func": true, "pred": true, "specfunc": true, "axiom": true, "lemma": true, "ghost": true,
 	"requires": true, "ensures": true, "modifies": true, "let": true, "loop": true, "trusted": true, "inline": true,
-	"noreturn": true, "assert": true, "bounded": true, "nopanic": true}
+	"noreturn": true, "assert": true, "bounded": true, "nopanic": true, "noframe": true}
 
 // loadContractFile parses one contract file. pkg is the package name used to qualify
 // unqualified function keys ("" for spec files whose keys are fully qualified).
@@ -275,6 +276,8 @@ func (cs *Contracts) loadContractText(path, pkg, text string) error {
 				return fail(fmt.Errorf("clause outside func"))
 			}
 			cur.Inline = true
+		case "noframe":
+			cur.NoFrame = true
 		case "noreturn":
 			cur.NoReturn = true
 		case "nopanic":
